@@ -62,12 +62,15 @@ def mirrorMEvent (nRead nIso : Nat) (e : MEvent) : MEvent :=
 def mirrorErr (n : Nat) (err : Nat → Bool → Int × Int) : Nat → Bool → Int × Int :=
   fun i left => err (n - 1 - i) (!left)
 
-/-- the event map seen from the other end: an event keyed by its first read intron `k = read.1 ≥ 0` is keyed by the
-    mirror image of its last one; a micro-intron insertion before intron `p` (key `−p−1`) becomes an insertion before
-    intron `n − p` -/
+/-- the event map seen from the other end: an event keyed by its first read intron `read.1` is keyed by the mirror
+    image of its last one -/
 def mirrorEmap (nRead nIso : Nat) (emap : List (Int × MEvent)) : List (Int × MEvent) :=
-  emap.map (fun q => (if 0 ≤ q.1 then (nRead : Int) - 1 - q.2.read.2 else -(nRead : Int) - q.1 - 2,
-                      mirrorMEvent nRead nIso q.2))
+  emap.map (fun q => ((nRead : Int) - 1 - q.2.read.2, mirrorMEvent nRead nIso q.2))
+
+/-- the retained micro introns seen from the other end: read exon `k` of the `nRead + 1` exons is exon `nRead − k`,
+    isoform intron `j` is intron `nIso − 1 − j`, and the events arrive in the opposite order -/
+def mirrorMicroMap (nRead nIso : Nat) (mm : List (Int × Int)) : List (Int × Int) :=
+  (mm.map (fun q => ((nRead : Int) - q.1, (nIso : Int) - 1 - q.2))).reverse
 
 def mirrorExRes (L : Int) : Except CErr (Iv × List Iv) → Except CErr (Iv × List Iv)
   | .ok (r, l) => .ok (mirrorIv L r, mirrorL L l)
